@@ -20,7 +20,8 @@ if a tree does not compile that way the driver is rebuilt with plain overload re
 build are dropped one by one and listed.  Trace_Layout17 accepts
 an event iff the designated cells are the ones Addr gives, every lane equals Expected modulo p (copies: the same word), the
 changed cells are exactly the write footprint, the second run agrees and nothing else was written; a crash is never accepted.
-Designation families (Layout.tla DesLevels / DesFamilies), every binary overload: operands a and b given by the SAME base pointer
+Designation families (Layout.tla DesLevels / DesFamilies), every binary overload: operands a and b in two arrays with equal / half-equal
+/ permuted strides and index lists or one index-list object (level sep); operands a and b given by the SAME base pointer
 (rows with two array operands) with identical strides / index lists (op(x, x)), index lists that agree in the first / second
 half of the lanes and differ in the other, that differ in exactly one lane (every lane), that are permutations of each other,
 unrelated ones, one index-list object for both; the same with the result in place (one array, one address map for a, b and the
@@ -30,7 +31,7 @@ designated operands as always.
 parcpy / parSetZero: sizes 0..64 (thorough: ..200 and larger) x thread arguments {-5,0,1,2,3,7,64,1000}: exactly the cells the
 chunk model covers change, to the source words / zero; and in the OpenMP delivery environments of vh::with_env (0 plain, 1 call
 from inside an active parallel region, 2 / 3 process-wide thread-count setting 1 / 5): sizes {0,1,2,3,5,8,13,64,1000} (thorough:
-0..40 and larger) x thread arguments {-5,0,1,2,3,4,7,64} - the judged result is the same in every environment."""
+0..40 and larger) x thread arguments {-5,0,1,2,3,4,7,64} (thorough: + 16, 1000) - the judged result is the same in every environment."""
 import os, json, shutil, hashlib, time
 from concurrent.futures import ThreadPoolExecutor
 import vlib
@@ -114,6 +115,13 @@ def gen_des(table, variant, tier, seed, ci0):
                 if m in ('ca', 'cb') and r['c']['kind'] in MEM:
                     for rep_ in range(3 if quick else 24):
                         emit(r, j, m, 'base', 'eq', 0, False); j += 1
+                    for rep_ in range(1 if quick else 8):
+                        emit(r, j, m, 'sep', 'eq', 0, False); j += 1
+            # two arrays, related strides / index lists (equal lists or one list object do not make them one operand)
+            sfams = ([('eq', 0, False), ('h1', 0, False), ('h2', 0, False), ('perm', 0, False)] + ([('eq', 0, True)] if ka == kb else [])) if 'index' in (ka, kb) else [('eq', 0, False)]
+            for rep_ in range(1 if quick else 8):
+                for fam, dl, ixo in sfams:
+                    emit(r, j, 'none', 'sep', fam, dl, ixo); j += 1
         # the operand words related (separate storage; registers, broadcasts)
         scal = 'scalar' in (ka, kb)
         fams = [('eq', 0), ('h1', 0), ('h2', 0)] + ([] if scal else [('perm', 0)]) + [('one', k) for k in range(L)]
@@ -133,10 +141,12 @@ def gen_par(tier, seed, ci0):
                 ci += 1
                 out.append((ci, '%d P %s %d %d %d 0x%x 0' % (ci, fn, s, t, [0, 3][(s + ti) % 2], rng.next())))
     # OpenMP delivery environments: the same calls from inside a parallel region / under a foreign thread-count setting
-    esizes = ENV_SIZES if tier == 'quick' else list(range(0, 41)) + [64, 65, 127, 200, 255, 1000, 1024, 4097]
+    esizes = ENV_SIZES if tier == 'quick' else list(range(0, 41)) + [64, 65, 127, 255, 1000, 4097]
     for fn in ('parcpy', 'parSetZero'):
         for s in esizes:
             for ti, t in enumerate(ENV_THREADS + ([] if tier == 'quick' else [16, 1000])):
+                if s > 1000 and t not in (1, 4, 64):
+                    continue
                 for env in (0, 1, 2, 3):
                     ci += 1
                     out.append((ci, '%d P %s %d %d %d 0x%x %d' % (ci, fn, s, t, [0, 3][(s + ti + env) % 2], rng.next(), env)))
@@ -156,9 +166,9 @@ def explain(rec, rows):
                 len(bad), bad[:10])
         r = rows[rec['id']]; L = r['L']; why = []
         if rec.get('dlv', 'none') != 'none':
-            why.append({'base': 'operands a and b given by the same base pointer', 'word': 'operand words related'}[rec['dlv']] +
+            why.append({'base': 'operands a and b given by the same base pointer', 'sep': 'operands a and b in two arrays with related strides / index lists', 'word': 'operand words related'}[rec['dlv']] +
                        ', family %s%s%s' % (rec['des'], ' lane %d' % rec['dl'] if rec['des'] == 'one' else '', ', one index-list object' if rec.get('ixo') else '') +
-                       (' (cells a %s, cells b %s)' % (rec['aa'], rec['ab']) if rec['dlv'] == 'base' else ''))
+                       (' (cells a %s, cells b %s)' % (rec['aa'], rec['ab']) if rec['dlv'] != 'word' else ''))
         a = [vlib.unw64(x) for x in rec['a']]; b = [vlib.unw64(x) for x in rec['b']] or [0] * L; res = [vlib.unw64(x) for x in rec['r']]
         f = dict(copy=lambda x, y: x, add=lambda x, y: (x + y) % P, sub=lambda x, y: (x - y) % P, mul=lambda x, y: (x * y) % P)[r['op']]
         for k in range(L):
@@ -248,8 +258,10 @@ def run(tier, seed, replay=None):
     if 'avx512' not in variants:
         not_ex += [dict(id=r['id'], reason='this CPU has no avx512f') for r in table if r['variant'] == 'avx512' and r['defined']]
     # ---- model phase and builds side by side
-    with ThreadPoolExecutor(max_workers=3) as ex:
-        fm = None if replay else ex.submit(tlc, wd, 'MC_Layout', 'MC_Layout.cfg', 8, None, 1500)
+    # (the model phase keeps running beside the conformance step; its result is collected before the verdict)
+    ex = ThreadPoolExecutor(max_workers=3)
+    fm = None if replay else ex.submit(tlc, wd, 'MC_Layout', 'MC_Layout.cfg', 6, None, 1500)
+    try:
         fb = {v: ex.submit(build_variant, ck, table, v, wd) for v in variants}
         built = {v: f.result() for v, f in fb.items()}
         exes = {v: b[0] for v, b in built.items()}
@@ -264,11 +276,17 @@ def run(tier, seed, replay=None):
             table_run = [r for r in table if r['id'] not in dropped]
         else:
             table_run = table
+    except BaseException:
+        ex.shutdown(wait=True)
+        raise
+
+    def model_result():
         if fm:
             r = fm.result()
-            ck.add_tlc(r, 'MC_Layout: descriptor algebra (all kinds, strides {0,1,2,3,5}, all 4-lane index lists over 0..5), %d table rows well-formed, parcpy chunk arithmetic sizes 0..12 x threads -2..14' % len(table))
+            ck.add_tlc(r, 'MC_Layout: descriptor algebra (all kinds, strides {0,1,2,3,5}, all 4-lane index lists over 0..5), %d table rows well-formed, parcpy chunk arithmetic sizes 0..12 x threads -2..14 x delivered teams 1..15, same-base designations (all pairs of 4-lane index lists over 0..2)' % len(table))
             if not r.ok:
                 ck.note('model-level: MC_Layout: %s' % (r.violated or r.error or r.out[-400:]))
+        ex.shutdown(wait=True)
     # ---- cases
     per = {}
     if replay:
@@ -292,6 +310,7 @@ def run(tier, seed, replay=None):
         r, tp = run_driver(exes[v], [l for _, l in cs], wd, v)
         if r.returncode != 0:
             ck.note('infrastructure: driver (%s) ended rc=%s: %s' % (v, r.returncode, r.stderr[-300:]))
+            model_result()
             ck.finish(); return 2
         traces.append(tp)
     tpath = os.path.join(wd, 'trace.ndjson')
@@ -299,6 +318,7 @@ def run(tier, seed, replay=None):
         for tp in traces:
             f.write(open(tp).read())
     v = validate_trace(wd, 'Trace_Layout17', 'Trace_Layout17.cfg', tpath, min_chunk=150)
+    model_result()
     ck.add_validation(v, 'calls of %d overloads + parcpy/parSetZero (%d cases)' % (len([r for r in table if r['defined'] and r['variant'] in variants]), len(byci)))
     ck.sample_trace(tpath)
     for msg in v['infra']:
